@@ -474,7 +474,46 @@ def clamp_failures(case, rec):
             F.append({"what": f"Servo on pin {case['pin']}: {NAMES[o['code']]}() prints {t}, outside the configured bounds {float(lo)}..{float(hi)}",
                       "expected": f"{float(lo)}..{float(hi)}", "observed": t, "key": "servo-clamp-state"})
             break
-    return F
+    return F or limit_failures(case, rec)
+
+
+def limit_failures(case, rec):
+    """'clamped on the device to the documented limits (configured angle/pulse bounds)': a case that is one write(v) / write_us(v) with v
+    outside the configured bounds followed by getters - the library receives the nearest integer of the bound on v's side, read() /
+    read_us() print the angle / pulse bound of that side (the map is increasing: min angle <-> min pulse)"""
+    ops = case["ops"]
+    if not ops or ops[0]["code"] > 1 or not ops[0]["args"] or any(o["code"] < 2 for o in ops[1:]):
+        return []
+    la, ha = bound(case, "min_angle"), bound(case, "max_angle")
+    lp, hp = bound(case, "min_pulse_us"), bound(case, "max_pulse_us")
+    if not (la < ha and lp < hp):
+        return []
+    code, v = ops[0]["code"], ops[0]["args"][0].frac()
+    lo, hi = (la, ha) if code == 0 else (lp, hp)
+    if lo <= v <= hi:
+        return []
+    up = v > hi
+    lim = hi if up else lo
+    dev, fgets, _ = fw_items(rec["fw"])
+    calls = [d[2] for d in dev if d[0] == (1 if code == 0 else 2)]
+    name = "write" if code == 0 else "write_us"
+    if not calls or abs(calls[-1] - lim) > Fraction(1, 2):
+        return [{"what": f"Servo on pin {case['pin']}: {name}({ops[0]['args'][0].v}) is outside the configured bounds {float(lo)}..{float(hi)}; the library "
+                         f"receives {calls[-1] if calls else None}, the documented limit is {float(lim)}", "expected": float(lim),
+                 "observed": calls[-1] if calls else None, "key": "servo-clamp-limit"}]
+    gi = 0
+    for o in ops[1:]:
+        t = fgets[gi] if gi < len(fgets) else None
+        gi += 1
+        want = (ha if up else la) if o["code"] == 2 else (hp if up else lp)
+        try:
+            x = float(t)
+        except (TypeError, ValueError):
+            continue
+        if abs(x - float(want)) > TOL + 2e-6 * abs(want):
+            return [{"what": f"Servo on pin {case['pin']}: after the out-of-range {name}({ops[0]['args'][0].v}) {NAMES[o['code']]}() prints {t}, the "
+                             f"documented limit is {float(want)}", "expected": float(want), "observed": t, "key": "servo-clamp-limit-state"}]
+    return []
 
 
 # ---------------------------------------------------------------------------------------------------------------
